@@ -61,17 +61,21 @@
         assert!(it.next().is_none());
         assert!(it.next().is_none());
     }
-    // hll_codec_coupons vx_sort_unstable (Vec<u32>): sorted_perm_of(final, old), same length
+    // hll_codec_coupons vx_sort_unstable (Vec<u32>): sorted_perm_of(final, old), same length.  Concrete lengths 0..=6 (see shims_std.rs).
+    fn sort_vec_u32_case<const N: usize>() {
+        let a: [u32; N] = kani::any(); let w: u32 = kani::any();
+        let mut v: Vec<u32> = a.to_vec();
+        v.sort_unstable();
+        assert!(v.len() == N);
+        let mut c0 = 0; let mut c1 = 0; let mut i = 0;
+        while i < N { if a[i] == w { c0 += 1; } if v[i] == w { c1 += 1; } if i + 1 < N { assert!(v[i] <= v[i + 1]); } i += 1; }
+        assert!(c0 == c1);
+    }
     #[kani::proof]
     #[kani::unwind(8)]
     fn shim_sort_unstable_vec_u32() {
-        let a: [u32; 6] = kani::any(); let n: usize = kani::any(); kani::assume(n <= 6); let w: u32 = kani::any();
-        let mut v: Vec<u32> = a[..n].to_vec();
-        v.sort_unstable();
-        assert!(v.len() == n);
-        let mut c0 = 0; let mut c1 = 0; let mut i = 0;
-        while i < n { if a[i] == w { c0 += 1; } if v[i] == w { c1 += 1; } if i + 1 < n { assert!(v[i] <= v[i + 1]); } i += 1; }
-        assert!(c0 == c1);
+        sort_vec_u32_case::<0>(); sort_vec_u32_case::<1>(); sort_vec_u32_case::<2>(); sort_vec_u32_case::<3>();
+        sort_vec_u32_case::<4>(); sort_vec_u32_case::<5>(); sort_vec_u32_case::<6>();
     }
     // theta_codec vx_fill_u8: v.fill(x)
     #[kani::proof]
